@@ -84,6 +84,7 @@ type recSink struct {
 	failAt  int
 	limit   int
 	runaway bool
+	delay   time.Duration // slow sink: sleep this long in every Write
 }
 
 var errRunaway = errors.New("verif: sink limit exceeded (runaway writer)")
@@ -107,6 +108,9 @@ func (s *recSink) bytes() []byte {
 }
 
 func (s *recSink) Write(p []byte) (int, error) {
+	if s.delay > 0 {
+		time.Sleep(s.delay)
+	}
 	s.mu.Lock()
 	defer s.mu.Unlock()
 	s.calls = append(s.calls, len(p))
@@ -124,6 +128,7 @@ func (s *recSink) Write(p []byte) (int, error) {
 // fragReader serves a byte slice with a configurable fragmentation pattern and an optional
 // failure at the k-th Read call.
 type fragReader struct {
+	mu      sync.Mutex // a concurrent Reader reads the source from its own goroutine
 	data    []byte
 	pos     int
 	pattern []int // chunk sizes, cyclic; 0 entries produce (0, nil) reads; empty = as much as asked
@@ -131,9 +136,26 @@ type fragReader struct {
 	eofWith bool // return the last data together with io.EOF
 	failAt  int
 	calls   int
+	delay   time.Duration // slow source
+}
+
+func srcPos(f *fragReader) int {
+	p, _ := f.position()
+	return p
+}
+
+func (f *fragReader) position() (pos, calls int) {
+	f.mu.Lock()
+	defer f.mu.Unlock()
+	return f.pos, f.calls
 }
 
 func (f *fragReader) Read(p []byte) (int, error) {
+	if f.delay > 0 {
+		time.Sleep(f.delay)
+	}
+	f.mu.Lock()
+	defer f.mu.Unlock()
 	f.calls++
 	if f.failAt > 0 && f.calls >= f.failAt {
 		return 0, errInjected
@@ -375,16 +397,20 @@ func (b *limitedBuf) Write(p []byte) (int, error) {
 // runReader reads data through a Reader as configured.  A watchdog turns a call that does
 // not return into outcome "hang" (the goroutine is abandoned).
 func runReader(data []byte, cfg rcfg, watchdog time.Duration, outLimit int) robs {
+	return runReaderDelay(data, cfg, watchdog, outLimit, 0)
+}
+
+func runReaderDelay(data []byte, cfg rcfg, watchdog time.Duration, outLimit int, delay time.Duration) robs {
 	base := lz4Goroutines()
 	done := make(chan robs, 1)
-	src := &fragReader{data: data, pattern: cfg.Frag, eofWith: cfg.EOFw, failAt: cfg.FailAt}
+	src := &fragReader{data: data, pattern: cfg.Frag, eofWith: cfg.EOFw, failAt: cfg.FailAt, delay: delay}
 	go func() {
 		var o robs
 		defer func() {
 			if r := recover(); r != nil {
 				o.Outcome, o.ErrText = "panic", fmt.Sprint(r)
 			}
-			o.Consumed, o.SrcCalls = src.pos, src.calls
+			o.Consumed, o.SrcCalls = src.position()
 			done <- o
 		}()
 		zr := lz4.NewReader(src)
@@ -404,7 +430,7 @@ func runReader(data []byte, cfg rcfg, watchdog time.Duration, outLimit int) robs
 			var wn int64
 			wn, err = zr.WriteTo(out)
 			o.Calls = 1
-			o.Log = append(o.Log, rec{"op": "writeto", "sz": 0, "n": int(wn), "err": classify(err), "cons": src.pos})
+			o.Log = append(o.Log, rec{"op": "writeto", "sz": 0, "n": int(wn), "err": classify(err), "cons": srcPos(src)})
 			if err == nil {
 				o.Outcome = "clean"
 			}
@@ -420,11 +446,11 @@ func runReader(data []byte, cfg rcfg, watchdog time.Duration, outLimit int) robs
 					buf = make([]byte, sz)
 				}
 				var n int
-				before := src.pos
+				before := srcPos(src)
 				n, err = zr.Read(buf[:sz])
 				o.Calls++
 				if o.Calls <= maxCallLog {
-					o.Log = append(o.Log, rec{"op": "read", "sz": sz, "n": n, "err": classify(err), "cons": src.pos - before})
+					o.Log = append(o.Log, rec{"op": "read", "sz": sz, "n": n, "err": classify(err), "cons": srcPos(src) - before})
 				}
 				if n > 0 {
 					if _, werr := out.Write(buf[:n]); werr != nil {
@@ -455,14 +481,14 @@ func runReader(data []byte, cfg rcfg, watchdog time.Duration, outLimit int) robs
 			o.Err = "none"
 		}
 		// lifecycle: more reads after the end must keep saying io.EOF and not touch the source
-		o.Consumed = src.pos
+		o.Consumed = srcPos(src)
 		for i := 0; i < cfg.Extra; i++ {
-			before := src.pos
+			before := srcPos(src)
 			n, e := zr.Read(make([]byte, 16))
 			o.ExtraErr = append(o.ExtraErr, classify(e))
-			o.Log = append(o.Log, rec{"op": "read", "sz": 16, "n": n, "err": classify(e), "cons": src.pos - before})
+			o.Log = append(o.Log, rec{"op": "read", "sz": 16, "n": n, "err": classify(e), "cons": srcPos(src) - before})
 		}
-		o.ExtraCons = src.pos - o.Consumed
+		o.ExtraCons = srcPos(src) - o.Consumed
 	}()
 	var o robs
 	select {
@@ -470,7 +496,7 @@ func runReader(data []byte, cfg rcfg, watchdog time.Duration, outLimit int) robs
 	case <-time.After(watchdog):
 		buf := make([]byte, 1<<16)
 		n := runtime.Stack(buf, true)
-		return robs{Outcome: "hang", ErrText: string(buf[:n]), Consumed: src.pos}
+		return robs{Outcome: "hang", ErrText: string(buf[:n]), Consumed: srcPos(src)}
 	}
 	// the leak obligation of C08 covers: end of stream, source error, decoding error
 	o.Leaked = settledLeak(base)
